@@ -296,3 +296,23 @@ def run_arguments(what, clause):
         print('REPLAY: VIOLATION-CONFIRMED (family of real nodes; the symbolic sets of the contract are not one input) clause %s: %s' % (clause, bad[:3]))
     else:
         print('REPLAY: not reproduced on the family of real nodes (clause %s)' % clause)
+
+
+def run_function_array(rank, variant, model, clause):
+    """function.Array.__init__: build the real object from the model's lengths and compare the announcement with what was given"""
+    from nutils import function
+    lens = [int(model.get('shape%d' % i, 2)) for i in range(rank)]
+    dtype = {'invalid-dtype': str}.get(variant, [bool, int, float, complex][int(model.get('dtype.kind', 2)) % 4])
+    if variant == 'non-integer-length':
+        lens[-1] = 1.5
+    given_args = {'a': ((2,), float)}
+    try:
+        a = function.Array(tuple(lens), dtype, frozenset(['X']), given_args)
+    except Exception as e:
+        print('REPLAY: rejected at construction with %s (%s)%s' % (type(e).__name__, e, ' -- VIOLATION-CONFIRMED: valid input' if variant == 'valid' else ''))
+        return
+    if variant != 'valid':
+        print('REPLAY: VIOLATION-CONFIRMED function.Array(%r, %s, ...) is accepted and announces shape %r dtype %s' % (tuple(lens), getattr(dtype, '__name__', dtype), a.shape, getattr(a.dtype, '__name__', a.dtype)))
+        return
+    ok = a.shape == tuple(lens) and all(type(n) is int for n in a.shape) and a.ndim == rank and a.dtype is dtype and a.spaces == frozenset(['X']) and dict(a.arguments) == given_args
+    print('REPLAY: %s announced shape %r ndim %r dtype %s spaces %r arguments %r for the given %r' % ('not reproduced:' if ok else 'VIOLATION-CONFIRMED', a.shape, a.ndim, a.dtype.__name__, sorted(a.spaces), dict(a.arguments), tuple(lens)))
